@@ -313,7 +313,13 @@ def flatten_stub(nc, deep):
             offs_terms = []
             flat = nc.fresh_content(eng, st, info['length'], z3.Lambda([k], FLAT(z3.Select(info['atoms'], k))), derived='flat')
         else:
-            L = nodeh.concrete(info['length'], 'length of the content asked to flatten')
+            try:
+                L = nodeh.concrete(info['length'], 'length of the content asked to flatten')
+            except Unsupported:
+                # the caller handed over a content whose length the case split does not determine (e.g. its whole content instead of the entries
+                # it shows): that is already the finding - reported as an obligation of its own instead of ending the harness
+                eng.add_obl('handed-content', st, z3.BoolVal(True), 'the content handed to flatten has a length determined by the entries of the node (it is %s)' % str(z3.simplify(info['length']))[:60], eng.where(fr, ins))
+                L = 0
             atoms = [z3.simplify(z3.Select(info['atoms'], BV(k_))) for k_ in range(L)]
             offs_terms = [BV(0)]
             for a in atoms:
